@@ -154,6 +154,18 @@ Theorem C08_memo_swap_invalidates_old_generation : forall fuel p s b s',
 Proof. exact swap_log. Qed.
 Print Assumptions C08_memo_swap_invalidates_old_generation.
 
+(** the standing exclusion "observers on bind-scope nodes": observing a LIVE scope node and then
+    swapping the bind leaves a registered, invalid, isolated node behind.  [wfb] accepts that
+    state, [Inv] (clause registered => valid) does not — the exclusion is a limit of the
+    invariant (lifting it needs the invalidation of NECESSARY nodes verified: unlinking inside
+    [invalidateNode], a non-empty invalidation queue), no defect was found there *)
+Theorem C05_memo_inner_observer_outside_invariant : exists s n,
+  run_unrejected (init 16) h_inner = Some s /\ wfb s = true /\
+  inGraph (nd s n) = true /\ valid (nd s n) = false /\ parents (nd s n) = [] /\ children (nd s n) = [] /\
+  ~ Inv s.
+Proof. exact inner_observer_outside_invariant. Qed.
+Print Assumptions C05_memo_inner_observer_outside_invariant.
+
 (** non-vacuity: a clean history with a memoized bind — cache misses, a cache hit, a purge, a
     clear, both stabilizers — runs to a well-formed state; the bind function ran 4 times in 5
     passes *)
